@@ -151,6 +151,30 @@ func report(cfg *runCfg, g *Gen, results []*fnResult, obls []*Obligation, engine
 	for _, o := range undecided {
 		report1(o, false)
 	}
+	// clauses that could not even be generated on this tree (engine errors: a name or an anchor site is
+	// gone) are undecided like any new obligation: the property-level drivers get a chance to produce a
+	// failing run of the real code; only that makes a VIOLATION
+	if exit == 0 && engineErrors > 0 && cfg.prop != "" && os.Getenv("VERIF_NO_REPLAY") == "" {
+		pseudo := &Obligation{Name: "clauses-not-generated", Kind: "engine", Status: "undecided", Src: "one or more clauses of the contracts no longer resolve on this tree (see ENGINE-ERROR lines)"}
+		os.MkdirAll(replayDir, 0o755)
+		var confirmed bool
+		var rep string
+		switch cfg.prop {
+		case "C05", "C06", "C09":
+			confirmed, rep = idlSearch(cfg, pseudo, replayDir)
+		case "C07":
+			confirmed, rep = generatorBounded(cfg, pseudo, replayDir)
+		default:
+			confirmed, rep = varlinkE2E(cfg, pseudo, replayDir)
+		}
+		if confirmed {
+			path := filepath.Join(replayDir, "clauses_not_generated.txt")
+			os.WriteFile(path, []byte("obligation: clauses-not-generated\nkind: engine\nclause: "+pseudo.Src+"\nstatus: undecided\n\n"+rep), 0o644)
+			violations++
+			lines = append(lines, fmt.Sprintf("VIOLATION property=%s replay=%s", cfg.prop, path))
+			exit = 1
+		}
+	}
 	for _, l := range lines {
 		fmt.Println(l)
 	}
